@@ -282,6 +282,14 @@ fn c19() -> Property {
                 cases_per_seed: 1,
                 note: "a recorded successful SCRAM exchange is replayed byte for byte on a second connection to the same acceptor",
             },
+            Variant {
+                name: "vanishing-account-vs-listener",
+                weight: 1,
+                make: || Box::pin(scen::c19::run_vanishing_user()),
+                max_steps: 3_000_000,
+                cases_per_seed: 1,
+                note: "a user-supplied credential store from which the account disappears between the look-up at sasl-init and the one at sasl-response",
+            },
         ],
         quick_runs: 3_000,
         thorough_runs: 200_000,
@@ -678,6 +686,14 @@ fn c08() -> Property {
                 max_steps: 3_000_000,
                 cases_per_seed: 1,
             note: "real listener-side Sender (LinkAcceptor) <-> scripted client receiver",
+            },
+            Variant {
+                name: "control-link-vs-scripted-coordinator",
+                weight: 1,
+                make: || Box::pin(scen::c18::run_scripted_resource()),
+                max_steps: 3_000_000,
+                cases_per_seed: 1,
+            note: "a transaction controller's control link (a sending link like any other; the rollback of a dropped transaction takes its credit without waiting) against a scripted coordinator that hands out credit in batches of 1-3",
             },
         ],
         quick_runs: 10_000,
